@@ -21,11 +21,12 @@ def rune_width(ch):
 
 
 def key_for(ch):
-    """bytes that insert the character (tab and newline through quoted-insert)"""
+    """bytes that insert the character: a tab through quoted-insert; a newline is Enter after a backslash with the
+    scenario's AcceptMultiline callback (the line continues while it ends with a backslash)"""
     if ch == "\t":
         return [b"\x16", b"\t"]
     if ch == "\n":
-        return [b"\x16", b"\n"]
+        return [b"\r"]
     return [ch.encode()]
 
 
